@@ -14,9 +14,21 @@ worlds per process.
       `autocorrelate`, `crosscorrelate`, `HistData.from_catalog`, `HistData.to_files/from_files`,
       `CorrFunc.to_file/from_file`: root results must equal the single-process run computed in
       this process (no MPI), all ranks must return.
+ (iii) error paths: requests that the single-process run REFUSES by raising (c06_common.REFUSALS:
+      probe larger than the random sample, centre without records, no patch method, existing cache
+      without overwrite, non-finite values, missing column / file / cache, different patch ids,
+      misaligned centres, catalogs without redshifts ...) are issued on every rank of a world,
+      followed by a barrier and a valid operation in the SAME world: every rank must return from
+      all of it, the root's request must end as in the single-process run (raise / return), the
+      root's result of the follow-up operation must be the single-process one.  The collective
+      calls logged per communicator are checked against Model/MpiWrite.v (`c06_refusal_case`:
+      all ranks returned -> all members entered the same sequence of collectives).  Refusals that
+      only one rank detects hang on the pinned tree (finding F23): one deterministic probe per
+      class in every run.
 """
 import json
 import os
+import random
 import shutil
 import signal
 import subprocess
@@ -34,6 +46,9 @@ TRUSTED = [
     "complete when all members entered the same call, deadlock = quiescent and nothing enabled; its self-check "
     "(13 items) runs every time",
     "translation of the communication log into model choices (harness/props/c06.py:translate)",
+    "refusal runs: extraction of the per-communicator collective call sequences from the simulator log "
+    "(harness/props/c06_driver.py:collective_traces); point-to-point traffic is not part of that model, so the Coq "
+    "side checks a necessary condition (all ranks returned -> aligned), the verdict itself is the observed return of every rank",
     "a real MPI library, real transport, eager limits, non-synchronising collectives, several hosts for the write "
     "pipeline, pickling of real mpi4py communicators are NOT exercised (not installed)",
 ]
@@ -41,11 +56,15 @@ ASSUMPTIONS = [
     "ranks are threads of one interpreter and share one file system (one node)",
     "collectives synchronise (the most blocking behaviour the MPI standard allows)",
     "data weights/redshifts are small dyadic numbers, so float sums are exact and order independent",
+    "a refused request is one that the single-process run of the same tree ends by raising; its exception type is the reference "
+    "for the root rank, the other ranks only have to return",
 ]
 RULE = ("dispatch cases = (world size, max_workers, rank0_node_only/hosts, send mode, wildcard policy+seed or explicit "
         "choice sequence, task list); pipeline cases = (world size, max_workers, send mode, policy, seed, data spec); "
         "distinct by that tuple; non-trivial when some wildcard receive had >= 2 candidate senders "
-        "(the schedule actually decided something)")
+        "(the schedule actually decided something); refusal cases = (refusal class, its parameters, follow-up "
+        "operation, world size, max_workers, send mode, policy, seed, data spec); non-trivial when the single-process "
+        "run raises and at least two ranks took part")
 
 HEADER = "From Verif Require Import Prelude Dispatch.\nOpen Scope nat_scope.\n"
 HERE = os.path.dirname(os.path.abspath(__file__))
@@ -54,6 +73,7 @@ SIM = os.path.normpath(os.path.join(HERE, "..", "sim"))
 REPO_SRC = os.environ.get("VERIF_REPO_SRC", "/repo/src")
 EOQ = "class:EndOfQueue"
 
+HEADER_R = "From Verif Require Import Prelude Dispatch MpiWrite.\nOpen Scope nat_scope.\n"
 F13A = "c06-maxworkers1-no-task-executed"
 F13B = "c06-write-sentinel-overtakes-eager"
 
@@ -310,6 +330,12 @@ def reference(ctx, name):
     ref["rest"] = cc.stage_rest(spec, ref["caches"], outdir, 1, True)
     for k in cc.CATS:
         cc.remove_meta(ref["caches"][k])      # worlds get copies without metadata / trees
+    ref["extra"] = {}
+    for k in cc.EXTRA_CATS:                   # valid catalogs that only the refusal scenarios use
+        ref["extra"][k] = os.path.join(base, "x_" + k)
+        cc.create_extra(spec, ref["extra"][k], 1, k)
+        cc.remove_meta(ref["extra"][k])
+    ref["base"] = base
     return json.loads(json.dumps(ref))
 
 
@@ -337,11 +363,202 @@ def pipeline_worlds(ctx):
                            mode=rng.choice(["eager", "sync", "sync", "mixed"]),
                            policy=rng.choice(["random", "random", "random", "low", "high", "fifo", "lifo"]),
                            seed=rng.randrange(10 ** 6), tag="random"))
+    # (iii) error paths.  Deterministic probe worlds: every refusal class once (the classes of
+    # groups B and C hang on the pinned tree: finding F23, one signature per class) ...
+    probes = [dict(size=3, mw=None, mode="eager", policy="low", seed=0, spec="A"),
+              dict(size=2, mw=None, mode="sync", policy="low", seed=0, spec="D")]
+    if not ctx.quick():
+        probes += [dict(size=5, mw=None, mode="mixed", policy="high", seed=1, spec="E"),
+                   dict(size=4, mw=2, mode="eager", policy="fifo", seed=2, spec="B")]
+    for k, pw in enumerate(probes):
+        fixed = random.Random("c06-refusal-probes-%d" % k)
+        pw.update(tag="refusal-probes", create=False, ops=["load"],
+                  refusals=[refusal_item(fixed, c, SPECS[pw["spec"]], pw["mw"]) for c in CLASSES_BC + CLASSES_AM])
+        worlds.append(pw)
+    # ... and seeded ones after the creation / entry-point jobs of every other world (same process,
+    # same caches: the refused request meets whatever history the world already has)
+    per_world = ctx.n(3, 4)
+    for w in worlds:
+        if "refusals" in w:
+            continue
+        pool = list(CLASSES_AM)
+        rng.shuffle(pool)
+        w["refusals"] = [refusal_item(rng, c, SPECS[w["spec"]], w["mw"]) for c in pool[:per_world]]
+        if not ctx.quick():
+            w["refusals"].append(refusal_item(rng, rng.choice(CLASSES_BC), SPECS[w["spec"]], w["mw"]))
     for i, w in enumerate(worlds):
         w["id"] = "p%03d" % i
         if w["mw"] is not None and w["mw"] > w["size"]:
             w["mw"] = w["size"]
     return worlds
+
+
+# ------------------------------------------------------------------------------------------
+# (iii) error paths
+# ------------------------------------------------------------------------------------------
+CLASSES_AM = sorted(c for c, v in cc.REFUSALS.items() if v[0] in "AM")
+CLASSES_BC = sorted(c for c, v in cc.REFUSALS.items() if v[0] in "BC")
+NEEDS_EXTRA = {"cross-patch-ids-differ": ["ids"], "auto-patch-ids-differ": ["ids"], "auto-centres-misaligned": ["shift"],
+               "cross-centres-misaligned": ["shift"], "trees-no-redshifts": ["noz"], "auto-no-redshifts": ["noz"],
+               "cross-no-redshifts": ["noz"], "hist-no-redshifts": ["noz"]}
+
+
+def refusal_item(rng, cls, spec, mw):
+    """parameters of one request of refusal class `cls` and the valid operation that follows it"""
+    par = {}
+    if cls == "random-probe-exceeds-records":
+        pn, n = rng.choice([2, 3, 4, 6]), rng.choice([40, 150, 300, 999])
+        # None: automatic probe size (100000 * sqrt(patch_num)); explicit sizes below 10 * patch_num are replaced by it
+        probe = rng.choice([None, None, n + 1, n + 2, max(n + 50, 10 * pn), 7])
+        par = dict(n=n, patch_num=pn, probe=probe, seed=rng.randrange(1000), cs=rng.choice([None, 64, n]))
+    elif cls == "create-empty-centre":
+        par = dict(pos=rng.randrange(spec["ncent"] + 1))
+    elif cls == "create-patch-num-range":
+        par = dict(patch_num=rng.choice([32768, 40000, 70000, -3]))
+    elif cls in ("create-file-extension",):
+        par = dict(ext=rng.choice(["xyz", "txt", "csv"]))
+    elif cls == "create-input-file-missing":
+        par = dict(ext=rng.choice(["pqt", "parquet", "fits", "hdf5"]))
+    elif cls == "cross-patch-ids-differ":
+        par = dict(which=rng.choice(["unknown", "ref_rand", "unk_rand"]))
+    elif cls == "auto-patch-ids-differ":
+        par = dict(which=rng.choice(["data", "random"]))
+    elif cls == "create-nonfinite-value":
+        par = dict(col=rng.choice(["ra", "dec", "z", "w"]), idx=rng.choice([0, 1, spec["cs"], spec["n"] - 1, rng.randrange(spec["n"])]),
+                   value=rng.choice(["nan", "inf", "-inf"]))
+    elif cls == "create-missing-column":
+        par = dict(col=rng.choice(["z", "w", "ra", "dec"]))
+    elif cls == "create-patch-id-range":
+        par = dict(idx=rng.randrange(spec["n"]), value=rng.choice([40000, 32768, -1]))
+    follow = rng.choice([f for f in cc.FOLLOW_UPS if not (f == "create" and mw == 1)])
+    return dict(cls=cls, par=par, follow=follow)
+
+
+_ref_first = {}
+
+
+def refusal_reference(ref, specname, cls, par):
+    """how the single-process run (this process, no MPI, max_workers=1) ends the request"""
+    key = (specname, cls, json.dumps(par, sort_keys=True))
+    if key not in _ref_first:
+        d = os.path.join(ref["base"], "rf_%d" % len(_ref_first))
+        env = refusal_env(d, ref, cls, None)
+        impl.set_threads(1)
+        _ref_first[key] = cc.refusal_outcome(cls, SPECS[specname], env, par, 1)
+        shutil.rmtree(d, ignore_errors=True)
+    return _ref_first[key]
+
+
+NEEDS_REGULAR = {"cross-no-randoms": ["data", "unk"], "cross-patch-ids-differ": list(cc.CATS), "auto-patch-ids-differ": ["data", "rand"],
+                 "auto-centres-misaligned": ["data"], "cross-centres-misaligned": ["data", "unk"], "create-cache-exists": ["urand"],
+                 "auto-no-redshifts": ["rand"], "cross-no-redshifts": ["unk", "rand"]}
+
+
+def refusal_env(d, ref, cls, caches):
+    """scratch directory of one request; caches=None: private copies of the regular catalogs it uses as well"""
+    cc.prepare_refusal_dir(d)
+    if caches is None:
+        caches = {}
+        for k in NEEDS_REGULAR.get(cls, []):
+            caches[k] = os.path.join(d, "c_" + k)
+            cc.copy_cache(ref["caches"][k], caches[k])
+    extra = {}
+    for k in NEEDS_EXTRA.get(cls, []):
+        extra[k] = os.path.join(d, "x_" + k)
+        cc.copy_cache(ref["extra"][k], extra[k])
+    return dict(dir=d, caches=caches, extra=extra)
+
+
+def refusal_job(w, d, caches, ref, item, jid, seed):
+    cls = item["cls"]
+    mw = w["mw"]
+    if cc.REFUSALS[cls][2] and mw == 1:
+        mw = 2          # catalog creation on an MPI world is refused for max_workers=1 whatever the input
+    return dict(kind="refusal", id=jid, cls=cls, par=item["par"], follow=item["follow"], spec=SPECS[w["spec"]],
+                env=refusal_env(os.path.join(d, "refusal_" + jid), ref, cls, caches), max_workers=mw,
+                sched=dict(mode=w["mode"], policy=w["policy"], seed=seed),
+                ref_first=item.get("ref_first") or refusal_reference(ref, w["spec"], cls, item["par"]))
+
+
+def problem_kind(prob):
+    return prob[0].split(":")[0]
+
+
+def handle_refusal(ctx, st, w, ref, j, res):
+    run = res["runs"][0]
+    cls, par, follow, size = j["cls"], j["par"], j["follow"], w["size"]
+    group, request = cc.REFUSALS[cls][0], cc.REFUSALS[cls][1]
+    want_first = j["ref_first"]
+    idx = (w["id"], j["id"])
+    sched = run.get("sched") or {}
+    replay = dict(entry="refusal", refusal_class=cls, request=request, parameters=par, follow_up=follow, world_size=size,
+                  max_workers=j["max_workers"], mode=w["mode"], policy=w["policy"], seed=sched.get("seed"),
+                  data_spec=dict(SPECS[w["spec"]], name=w["spec"]), single_process_outcome=want_first,
+                  how="harness/props/c06_driver.py job kind 'refusal': cc.stage_refusal on every rank = the request, "
+                      "COMM.Barrier(), then the follow-up operation on the regular data catalog")
+    refused = want_first[0] == "raised"
+    ctx.count(key=("refusal", cls, json.dumps(par, sort_keys=True), follow, size, j["max_workers"], w["mode"], w["policy"],
+                   sched.get("seed"), w["spec"]),
+              nontrivial=(refused or group == "M") and size >= 2, kind="refusal/%s/%s" % (group, cls))
+    ctx.bump("refusal_single_process:" + (want_first[1] if refused else "returns"))
+    first = run.get("first", {})
+    prob = rank_problems(run)
+    all_returned = prob is None
+    root_first = first.get("0")
+    root_same = group == "M" or (root_first is not None and root_first[0] == want_first[0])
+    follow_same = True
+    per_rank = {r: dict(request=first.get(r, ["did not come back"]), then=run["ranks"][r]["status"]) for r in sorted(run["ranks"])}
+    if not all_returned:
+        ctx.fail("c06-refusal-%s-%s" % (cls, problem_kind(prob)),
+                 "%s on %d ranks (max_workers=%s, %s sends): the single-process run %s; under the simulated MPI world not every rank "
+                 "returned from the request, the barrier and the following %s operation (%s): %s; blocked in: %s"
+                 % (request, size, j["max_workers"], w["mode"], "raises " + want_first[1] if refused else "returns", follow,
+                    prob[0], json.dumps(per_rank)[:700], json.dumps(run.get("blocked"))[:400]),
+                 dict(replay, per_rank=per_rank, blocked=run.get("blocked")), case=idx)
+    else:
+        if not root_same:
+            ctx.fail("c06-refusal-%s-root-outcome-differs" % cls,
+                     "%s on %d ranks: the single-process run ends with %s, the root rank with %s (all ranks returned)"
+                     % (request, size, want_first[:2], (root_first or [])[:2]), dict(replay, per_rank=per_rank), case=idx)
+        elif refused and group != "M" and root_first[1] != want_first[1]:
+            ctx.disagree("refusal-exception-type(root vs single process)", idx,
+                         dict(replay=replay, root=root_first, single_process=want_first))
+        val = run["ranks"]["0"].get("value") or {}
+        want = {"create": ref["create"]["data"]} if follow == "create" else \
+            {follow: ({"data": ref["rest"]["load"]["data"]} if follow == "load" else ref["rest"][follow])}
+        diff = cc.first_diff(want, val)
+        follow_same = diff is None
+        if diff:
+            ctx.fail("c06-refusal-%s-followup-differs" % cls,
+                     "%s on %d ranks, then %s in the same world: the root's result differs from the single-process run at %s"
+                     % (request, size, follow, diff), dict(replay, per_rank=per_rank, first_difference=diff), case=idx)
+        else:
+            ctx.bump("refusal_followup_equal:" + follow)
+        kinds = {v[0] for r, v in first.items()}
+        ctx.bump("refusal_all_ranks_same_outcome" if len(kinds) == 1 else "refusal_ranks_end_request_differently")
+        if run["leftover"]:
+            ctx.bump("refusal_runs_with_unreceived_messages")
+    worlds = []
+    for cid in sorted(run.get("ctraces", {}), key=int):
+        tr = run["ctraces"][cid]
+        worlds.append(fq.lst([fq.nlist(tr[r]) for r in sorted(tr, key=int)]))
+    st["rterms"].append("c06_refusal_case %s %s %s %s" % (fq.lst(worlds), fq.b(all_returned), fq.b(root_same), fq.b(follow_same)))
+    st["rmeta"].append(dict(idx=idx, replay=replay, expect=2 * (not all_returned) + 4 * (not root_same) + 8 * (not follow_same)))
+    ctx.sample(dict(kind="refusal", replay=replay, per_rank=per_rank, all_returned=all_returned,
+                    collective_calls_comm_world=run.get("ctraces", {}).get("0")), limit=6)
+
+
+def finish_refusals(ctx, st):
+    codes = ctx.shards("Cases_C06R", HEADER_R, st["rterms"], shard=150)
+    bad = []
+    for m, c in zip(st["rmeta"], codes):
+        if c is None:
+            continue
+        if c & 1:       # all ranks returned although some communicator's members entered different collectives
+            ctx.disagree("Cases_C06R(all returned -> collectives aligned)", m["idx"], dict(code=c, replay=m["replay"]))
+        if (c & 14) != m["expect"]:
+            bad.append((m["idx"], c, m["expect"]))
+    ctx.obligation("refusal cases: the Coq checker reports the flags the harness acted on", not bad, json.dumps(bad[:5]))
 
 
 def pipeline_job(ctx, w, ref):
@@ -360,6 +577,8 @@ def pipeline_job(ctx, w, ref):
                          max_workers=w["mw"], sched=sched, keep_log=True))
     jobs.append(dict(kind="rest", id="rest", spec=spec, caches=caches, outdir=os.path.join(d, "out"),
                      max_workers=w["mw"], sched=dict(sched, seed=w["seed"] + 1), keep_log=False, ops=w.get("ops")))
+    for i, item in enumerate(w.get("refusals", [])):
+        jobs.append(refusal_job(w, d, caches, ref, item, "r%02d" % i, w["seed"] + 2 + i))
     return dict(size=w["size"], jobs=jobs)
 
 
@@ -370,13 +589,17 @@ OPS_WHAT = {
 }
 
 
-def handle_pipeline(ctx, w, ref, out):
+def handle_pipeline(ctx, w, ref, out, st, jobs):
     spec = SPECS[w["spec"]]
     base = dict(world_size=w["size"], max_workers=w["mw"], mode=w["mode"], policy=w["policy"], seed=w["seed"],
                 data_spec=dict(spec, name=w["spec"]))
+    byid = {j["id"]: j for j in jobs}
     for res in out["results"]:
         if res.get("skipped"):
             ctx.bump("stage_skipped_after_stuck_threads")
+            continue
+        if res.get("kind") == "refusal":
+            handle_refusal(ctx, st, w, ref, byid[res["id"]], res)
             continue
         run = res["runs"][0]
         stage = res["id"]
@@ -472,7 +695,7 @@ def is_f13b(run):
 def run(ctx):
     t0 = time.time()
     workers = 8
-    st = dict(terms=[], meta=[], noterm=[])
+    st = dict(terms=[], meta=[], noterm=[], rterms=[], rmeta=[])
     # plan
     dworlds = []
     nbatch = ctx.n(1, 4)
@@ -485,14 +708,21 @@ def run(ctx):
     refs = {}
     for name in sorted({w["spec"] for w in pworlds}):
         refs[name] = reference(ctx, name)
-    ctx.log("reference runs for %d data specs done (%.1fs); %d dispatch + %d pipeline world processes"
-            % (len(refs), time.time() - t0, len(dworlds), len(pworlds)))
+    nref = 0
+    for w in pworlds:           # single-process outcome of every refused request (this thread, before any world runs)
+        for item in w.get("refusals", []):
+            item["ref_first"] = refusal_reference(refs[w["spec"]], w["spec"], item["cls"], item["par"])
+            nref += 1
+    ctx.log("reference runs for %d data specs and %d refused requests (%d distinct) done (%.1fs); %d dispatch + %d pipeline "
+            "world processes" % (len(refs), nref, len(_ref_first), time.time() - t0, len(dworlds), len(pworlds)))
 
     def do_d(w):
         return w, launch(ctx, w["id"], dict(size=w["size"], jobs=w["jobs"]))
 
     def do_p(w):
-        return w, launch(ctx, w["id"], pipeline_job(ctx, w, refs[w["spec"]]))
+        job = pipeline_job(ctx, w, refs[w["spec"]])
+        w["_jobs"] = job["jobs"]
+        return w, launch(ctx, w["id"], job)
 
     selftest = None
     try:
@@ -524,16 +754,25 @@ def run(ctx):
                 else:
                     handle_dispatch(ctx, st, w["size"], j, res)
         else:
-            handle_pipeline(ctx, w, refs[w["spec"]], out)
+            handle_pipeline(ctx, w, refs[w["spec"]], out, st, w["_jobs"])
         shutil.rmtree(r["dir"], ignore_errors=True)
     ctx.obligation("simulator self-check (FIFO per sender, steered wildcard, sync blocks, deadlock and mismatch detection, "
                    "collectives, determinism)", bool(selftest) and all(selftest.values()), json.dumps(selftest))
+    ctx.log("results interpreted (%.1fs)" % (time.time() - t0))
     finish_dispatch(ctx, st)
+    ctx.log("dispatch shards done (%.1fs)" % (time.time() - t0))
+    finish_refusals(ctx, st)
+    ctx.log("refusal shards done (%.1fs)" % (time.time() - t0))
+    ctx.extra["refusals"] = dict(classes={c: cc.REFUSALS[c][0] for c in sorted(cc.REFUSALS)}, runs=len(st["rterms"]),
+                                 groups="A: decided by every rank; B: detected by one rank (root reads / writer opens); "
+                                        "C: raised by the job on a worker rank; M: refused under MPI only")
     ctx.extra["worlds"] = dict(dispatch_processes=len(dworlds), pipeline_processes=len(pworlds),
                                dispatch_runs=len(st["terms"]) + len(st["noterm"]),
                                max_process_wall_s=max(walls) if walls else None)
     ctx.extra["hypotheses_checked"] = ["every logged event enabled in Model/Dispatch.v step_with (flag0)",
-                                       "none needed: dispatch_exactly_once_total has no hypothesis on the rank set"]
+                                       "none needed: dispatch_exactly_once_total has no hypothesis on the rank set",
+                                       "refusal runs: all ranks returned -> the logged collective calls of every communicator "
+                                       "are aligned (C06_collectives_terminate_iff_aligned, flag0 of c06_refusal_case)"]
 
 
 def replay(ctx, data):
@@ -547,10 +786,22 @@ def replay(ctx, data):
         st = dict(terms=[], meta=[], noterm=[])
         handle_dispatch(ctx, st, size, job["jobs"][0], res["out"]["results"][0])
         finish_dispatch(ctx, st)
+    elif r.get("entry") == "refusal":
+        name = r["data_spec"]["name"]
+        ref = reference(ctx, name)
+        w = dict(id="replay", size=size, mw=r["max_workers"], mode=r["mode"], policy=r["policy"], seed=r["seed"] - 2, spec=name,
+                 create=False, ops=["load"],
+                 refusals=[dict(cls=r["refusal_class"], par=r["parameters"], follow=r["follow_up"])])
+        job = pipeline_job(ctx, w, ref)
+        res = launch(ctx, "replay", job)
+        st = dict(terms=[], meta=[], noterm=[], rterms=[], rmeta=[])
+        handle_pipeline(ctx, w, ref, res["out"], st, job["jobs"])
+        finish_refusals(ctx, st)
     else:
         name = r["data_spec"]["name"]
         ref = reference(ctx, name)
         w = dict(id="replay", size=size, mw=r["max_workers"], mode=r["mode"], policy=r["policy"], seed=r["seed"], spec=name)
-        res = launch(ctx, "replay", pipeline_job(ctx, w, ref))
-        handle_pipeline(ctx, w, ref, res["out"])
+        job = pipeline_job(ctx, w, ref)
+        res = launch(ctx, "replay", job)
+        handle_pipeline(ctx, w, ref, res["out"], dict(terms=[], meta=[], noterm=[], rterms=[], rmeta=[]), job["jobs"])
     reap()
